@@ -266,15 +266,43 @@ def check_property(prop, tier="quick", seed=0, jobs=None, write_baseline=False, 
     import multiprocessing as mp
 
     fork = mp.get_context("fork")
-    # native pool is forked BEFORE the facade is installed (its workers keep the unpatched modules)
     sys.path.insert(0, VERIF)
     from pyvc import loader
 
     loader.import_repo()
-    native_pool = ProcessPoolExecutor(max_workers=jobs, mp_context=fork)
-    native_pool.submit(int, 0).result()  # force worker creation now
-    for _ in range(jobs):
-        native_pool.submit(time.sleep, 0.01)
+    known = load_known()
+    # Phase A (bounded stand-in): native cross-check of the contracts on random inputs, run and FINISHED
+    # before the facade is installed -- never two process pools alive at once (fork + threads).
+    native = {"runs": 0, "failures": []}
+    native_known = {}
+    native_failures_chk = []
+    payloads = []
+    for c in contracts:
+        if c.native_samples <= 0:
+            continue
+        cfgs = c.configs(tier)
+        step = max(1, len(cfgs) // (4 if tier == "quick" else 16))
+        for cfg in cfgs[::step]:
+            payloads.append({"prop": prop, "contract": c.name, "cfg": cfg, "seed": seed, "samples": c.native_samples if tier == "quick" else 4 * c.native_samples})
+    if payloads:
+        with ProcessPoolExecutor(max_workers=min(jobs, len(payloads)), mp_context=fork) as npool:
+            native_outs = list(npool.map(_native_inproc, payloads))
+    else:
+        native_outs = []
+    for pl, outs in zip(payloads, native_outs):
+        if "error" in outs:
+            native_failures_chk.append({"contract": pl["contract"], "cfg": pl["cfg"], "reason": "native cross-check crashed: " + outs["error"][-800:]})
+            continue
+        for r in outs["runs"]:
+            native["runs"] += 1
+            for name, ok, detail in [x for x in r["results"] if not x[1]]:
+                item = {"contract": pl["contract"], "cfg": pl["cfg"], "obligation": name, "kind": "native", "detail": detail,
+                        "model": r["values"], "native": True}
+                kf = match_known(known, prop, pl["contract"], pl["cfg"], name, detail)
+                if kf is not None:
+                    native_known.setdefault(kf["id"], (kf, item))
+                else:
+                    native["failures"].append(item)
     _worker_init()  # install the facade once; symbolic workers are forked from this state
     with ProcessPoolExecutor(max_workers=jobs, mp_context=fork) as ex:
         futs = {ex.submit(run_task, t): t for t in tasks}
@@ -287,9 +315,8 @@ def check_property(prop, tier="quick", seed=0, jobs=None, write_baseline=False, 
                                 "reason": f"worker died: {e}", "wall_s": 0})
     results.sort(key=lambda r: (r["contract"], cfg_id(r["cfg"])))
 
-    known = load_known()
     baseline = _load_baseline(prop)
-    violations, known_hits, undecided, failures = [], [], [], []
+    violations, known_hits, undecided, failures = [], [], [], list(native_failures_chk)
     n_ob = n_dis = 0
     backend = {}
     by_kind = {}
@@ -358,7 +385,10 @@ def check_property(prop, tier="quick", seed=0, jobs=None, write_baseline=False, 
             continue
         per_contract[v["contract"]] = per_contract.get(v["contract"], 0) + 1
         todo.append(v)
-    replays = list(native_pool.map(_native_inproc, [{"prop": prop, "contract": v["contract"], "cfg": v["cfg"], "values": v["model"]} if v.get("model") is not None else None for v in todo]))
+    from concurrent.futures import ThreadPoolExecutor
+
+    with ThreadPoolExecutor(max_workers=8) as tp:
+        replays = list(tp.map(lambda v: _native_subprocess({"prop": prop, "contract": v["contract"], "cfg": v["cfg"], "values": v["model"]}) if v.get("model") is not None else None, todo))
     for v, outs in zip(todo, replays):
         reported.append(_replay_and_write(prop, v, baseline, outs))
     n_refuted_total = len(violations)
@@ -367,34 +397,8 @@ def check_property(prop, tier="quick", seed=0, jobs=None, write_baseline=False, 
     for kf, item in known_hits:
         known_lines.setdefault(kf["id"], (kf, item))
 
-    # native cross-check of the contracts on random inputs (bounded stand-in, labelled)
-    native = {"runs": 0, "failures": []}
-    if not only or True:
-        payloads = []
-        for c in contracts:
-            if c.native_samples <= 0:
-                continue
-            cfgs = c.configs(tier)
-            step = max(1, len(cfgs) // (4 if tier == "quick" else 16))
-            for cfg in cfgs[::step]:
-                payloads.append({"prop": prop, "contract": c.name, "cfg": cfg, "seed": seed, "samples": c.native_samples if tier == "quick" else 4 * c.native_samples})
-        if True:
-            for pl, outs in zip(payloads, native_pool.map(_native_inproc, payloads)):
-                if "error" in outs:
-                    failures.append({"contract": pl["contract"], "cfg": pl["cfg"], "reason": "native cross-check crashed: " + outs["error"][-800:]})
-                    continue
-                for r in outs["runs"]:
-                    native["runs"] += 1
-                    bad = [x for x in r["results"] if not x[1]]
-                    for name, ok, detail in bad:
-                        item = {"contract": pl["contract"], "cfg": pl["cfg"], "obligation": name, "kind": "native", "detail": detail,
-                                "model": r["values"], "native": True}
-                        kf = match_known(known, prop, pl["contract"], pl["cfg"], name, detail)
-                        if kf is not None:
-                            known_lines.setdefault(kf["id"], (kf, item))
-                        else:
-                            native["failures"].append(item)
-    native_pool.shutdown(wait=False, cancel_futures=True)
+    for kid, pair in native_known.items():
+        known_lines.setdefault(kid, pair)
     seen_n = set()
     nat_items = []
     for item in native["failures"]:
